@@ -88,6 +88,147 @@ func sliceAssumptions(ass []Assump, seeds ...*Term) []*Term {
 	return out
 }
 
+// sliceRadius keeps the definitions needed by the seeds and the plain facts within a bounded
+// "distance" of them (facts and path-condition definitions cost one step, other definitions none).
+// Dropping hypotheses is sound for proving (unsat stays valid); a sat answer on a reduced set is never used.
+func sliceRadius(ass []Assump, radius int, seeds ...*Term) []*Term {
+	dist := map[string]int{}
+	seen := map[*Term]bool{}
+	s0 := map[string]bool{}
+	for _, s := range seeds {
+		collectSyms(s, s0, seen)
+	}
+	type info struct {
+		syms []string
+		in   bool
+	}
+	infos := make([]*info, len(ass))
+	byDef := map[string][]int{}
+	bySym := map[string][]int{}
+	for i, a := range ass {
+		m := map[string]bool{}
+		collectSyms(a.T, m, map[*Term]bool{})
+		in := &info{}
+		for s := range m {
+			in.syms = append(in.syms, s)
+		}
+		infos[i] = in
+		if a.Def != "" {
+			byDef[a.Def] = append(byDef[a.Def], i)
+		} else {
+			for s := range m {
+				bySym[s] = append(bySym[s], i)
+			}
+		}
+	}
+	var queue []string
+	for s := range s0 {
+		dist[s] = 0
+		queue = append(queue, s)
+	}
+	relax := func(s string, d int) {
+		if old, ok := dist[s]; !ok || d < old {
+			dist[s] = d
+			queue = append(queue, s)
+		}
+	}
+	for len(queue) > 0 {
+		s := queue[0]
+		queue = queue[1:]
+		d := dist[s]
+		for _, i := range byDef[s] {
+			infos[i].in = true
+			isPC := strings.HasPrefix(s, "pc!")
+			for _, t := range infos[i].syms {
+				if isPC && !strings.HasPrefix(t, "pc!") {
+					// symbols that only occur in branch conditions are one step further away
+					relax(t, d+1)
+				} else {
+					relax(t, d)
+				}
+			}
+		}
+		if d >= radius {
+			continue
+		}
+		for _, i := range bySym[s] {
+			infos[i].in = true
+			for _, t := range infos[i].syms {
+				relax(t, d+1)
+			}
+		}
+	}
+	var out []*Term
+	for i, a := range ass {
+		if infos[i].in {
+			out = append(out, a.T)
+		}
+	}
+	return out
+}
+
+// ScriptRadius is Script with a bounded-relevance hypothesis set. The goal is skolemised and the quantified
+// hypotheses are additionally instantiated at the skolem constants and their neighbours (k-1, k, k+1).
+func (ob *Obligation) ScriptRadius(radius int) string { return ob.ScriptRadiusOpt(radius, false, false) }
+
+func hasQuant(t *Term, memo map[*Term]bool) bool {
+	if v, ok := memo[t]; ok {
+		return v
+	}
+	r := t.Op == "forall" || t.Op == "exists"
+	if !r {
+		for _, a := range t.Args {
+			if hasQuant(a, memo) {
+				r = true
+				break
+			}
+		}
+	}
+	memo[t] = r
+	return r
+}
+
+// ground=true drops the quantified hypotheses after instantiating them (only an unsat answer is used).
+func (ob *Obligation) ScriptRadiusOpt(radius int, ufmul bool, ground bool) string {
+	ass := ob.exec.assumptions[:ob.NAss]
+	neg, sks := skolemizeNeg(ob.Goal)
+	terms := sliceRadius(ass, radius, ob.PC, neg)
+	if len(sks) > 0 && len(sks) <= 3 {
+		var insts []*Term
+		for _, k := range sks {
+			if k.S.K == SInt {
+				insts = append(insts, k, Add(k, IntLit(1)), Sub(k, IntLit(1)))
+			}
+		}
+		var extra []*Term
+		for _, t := range terms {
+			extra = append(extra, instances(t, insts)...)
+		}
+		terms = append(terms, extra...)
+	}
+	if ground {
+		memo := map[*Term]bool{}
+		var keep []*Term
+		for _, t := range terms {
+			if !hasQuant(t, memo) {
+				keep = append(keep, t)
+			}
+		}
+		terms = keep
+	}
+	terms = append(terms, ob.PC, neg)
+	var defs map[string]*Term
+	if ufmul {
+		defs = map[string]*Term{}
+		for _, a := range ass {
+			if a.Def != "" && a.T.Op == "=" && len(a.T.Args) == 2 && (a.T.Args[1].S.K == SReal || a.T.Args[1].S.K == SInt) {
+				defs[a.Def] = a.T.Args[1]
+			}
+		}
+	}
+	return ScriptDefs(terms, nil, "", ufmul, defs)
+}
+
 func (ob *Obligation) Script(getValues []*Term) string {
 	return ob.ScriptWith(nil, getValues)
 }
